@@ -1156,6 +1156,8 @@ class FnTranslator:
         """Lean application of a translated method to `s.self` and the (translated) arguments"""
         if callee['raises'] and not self.raises:
             raise Unsupported(node, 'call of a raising method outside the raising mode')
+        if callee['lean_name'] == self.name and not (self.fuel and callee['fuel']):
+            raise Unsupported(node, 'a recursive method must be declared with `fuel` in the spec')
         if callee['fuel']:
             if not self.fuel:
                 raise Unsupported(node, 'call of a recursive method from a method without `fuel`')
@@ -1448,6 +1450,9 @@ class ExprTr:
         return self.coerce(e, t, expected, node)
 
     def _expr(self, node, expected):
+        if expected is not None and expected[0] == 'Option' and expected[1] is not None \
+                and isinstance(node, (ast.List, ast.Dict, ast.ListComp, ast.DictComp)) and self.fn.raises:
+            expected = expected[1]          # a display where a value that may be None is expected
         if isinstance(node, ast.Constant):
             v = node.value
             if v is None:
